@@ -66,6 +66,12 @@ CHECKS = [
               "inside Union[int,.], tuple[.,int] and a structure-less PyTree, with a plain axis of the same name before or after and optionally "
               "aliased leaves; both typecheckers.",
          note="trusted: dimlang matcher with labels + ptcheck; nested-wrapping trees contain arrays only"),
+    dict(property_id="C19", level="exploration", design_ref="DESIGN.md §5 C19",
+         technique="Hypothesis-generated histories of switch updates and calls on one decorated callable, differential against the undecorated twin while disabled, TypeCheckError again after re-enabling; subprocess runs for the environment variable and a hooked module",
+         text="Every valid spelling of the switch (0/1/true/false in any case, bools) at every moment relative to decoration and calls, invalid values and "
+              "unknown keys (ValueError, state unchanged), typing.no_type_check above/below the decorator, calls from another thread, well- and "
+              "ill-typed argument lists over C07's signatures; JAXTYPING_DISABLE spellings and a hooked module in subprocesses.",
+         note="new-style decorator only; the undecorated twin is a second compilation of the same generated source"),
 ]
 _pending = "check not built yet in this round (will be claimed once its machinery is committed)"
 NOT_APPLICABLE = [dict(property_id=f"C{i:02d}", reason=_pending) for i in range(1, 21)
